@@ -2,13 +2,14 @@ import MsqProofs.Lemmas.CacheLemmas
 /-!
 # C17 — schema lookups are minimal, consistently keyed and cache-transparent
 
-Theorems about the state-machine model of `CreateTableStatementGetter` (`MsqModel/Cache.lean`, the code as of /repo 4e42ffc),
-for every schema provider `prov` and every parser `parse`.  The one hypothesis the proofs force is visible in the statements:
-`Good n` — the table name has no `/` and no NUL (findings F-C17-4…7, witness theorems below, replayed on the real class by
-`tools/harness/props/c17.py`).  The hypotheses the first version of these theorems needed are gone with the repairs of
-F-C17-1 (truncated file trusted: the file is now written under a temporary name and renamed — `crash_dirOK` holds at EVERY crash
-point), F-C17-2/3 (`.sql` inside a name: only the suffix is removed now) and F-C17-8 (carriage return: no newline translation);
-their witnesses became the regression theorems `regress_*`.
+Theorems about the state-machine model of `CreateTableStatementGetter` (`MsqModel/Cache.lean`, the code as of /repo 69f92c3),
+for every schema provider `prov`, every parser `parse` and EVERY table name (any sequence of Unicode scalar values: `/`, `../`, NUL,
+`%`, blanks, non-ASCII, the empty name, `.` and `..` included).  The hypotheses earlier versions of these theorems needed are gone
+with the repairs of F-C17-1 (truncated file trusted: the file is now written under a temporary name and renamed — `crash_dirOK` holds
+at EVERY crash point), F-C17-2/3 (`.sql` inside a name: only the suffix is removed now), F-C17-8 (carriage return: no newline
+translation) and F-C17-4…7 (`Good n` — no `/`, no NUL in the name: the file of a table is now named by the injective encoding
+`Cache.enc` = `urllib.parse.quote(name, safe="")`, whose image has no separator and no NUL: `files_stay_inside`,
+`names_do_not_collide`); their witnesses became the regression theorems `regress_*`.
 -/
 namespace C17
 open Cache
@@ -25,12 +26,13 @@ def expected (n : Name) : Res σ :=
 /-- consistency of the volatile state with the provider and with the directory -/
 structure Inv (s : St σ) : Prop where
   mem : ∀ n st, mget s.mem n = some st → parse (prov n) = .ok st
-  disk : s.useDisk = true → ∀ n, n ∈ s.listed → Good n = true ∧ fget s.files (n ++ ext) = some (prov n)
+  disk : s.useDisk = true → ∀ n, n ∈ s.listed → fget s.files (enc n ++ ext) = some (prov n)
 
-/-- restart safety of a directory: every `*.sql` entry is `<m>.sql` for a good name `m` and holds the provider's text
-(other entries — temporary files of interrupted runs, foreign files — are never looked at) -/
+/-- restart safety of a directory: every entry that `__init__` reads as table `m` (= the file `<enc m>.sql`) holds the provider's
+text for `m` (other entries — temporary files of interrupted runs, foreign files, `*.sql` files whose stem is no canonical encoding —
+are never looked at) -/
 def DirOK (files : Files) : Prop :=
-  ∀ f t m, fget files f = some t → stripSql f = some m → Good m = true ∧ t = prov m
+  ∀ f t m, fget files f = some t → entryName f = some m → t = prov m
 
 theorem finish_expected (s : St σ) (n : Name) :
     (finish parse s n (prov n)).1 = expected prov parse n := by
@@ -68,28 +70,28 @@ theorem finish_frame (s : St σ) (n : Name) (sql : Text) :
   unfold finish
   cases parse sql <;> simp
 
-/-- closed form of an uninterrupted request for a good name -/
-theorem get_none_good (s : St σ) (n : Name) (hg : Good n = true) :
+/-- closed form of an uninterrupted request -/
+theorem get_none_closed (s : St σ) (n : Name) :
     Cache.get prov parse none s n =
       match mget s.mem n with
       | some st => (.ok st, s)
       | none =>
         if s.useDisk then
           if s.listed.contains n then
-            match fget s.files (n ++ ext) with
+            match fget s.files (enc n ++ ext) with
             | some t => finish parse s n t
             | none => (.fail .fileNotFound, s)
           else finish parse { s with calls := s.calls ++ [n], listed := n :: s.listed, files := saved s.files n (prov n) } n (prov n)
         else finish parse { s with calls := s.calls ++ [n] } n (prov n) := by
   unfold Cache.get load openTmp
-  simp only [resolve_good _ _ hg, resolveTmp_good _ _ hg, dies, Bool.false_eq_true, ↓reduceIte, putFile, replaceFile, saved]
+  simp only [resolve_enc, resolveTmp_enc, dies, Bool.false_eq_true, ↓reduceIte, putFile, replaceFile, saved]
   cases mget s.mem n with
   | some st => rfl
   | none =>
     simp only
     split
     · split
-      · cases fget s.files (n ++ ext) <;> rfl
+      · cases fget s.files (enc n ++ ext) <;> rfl
       · rfl
     · rfl
 
@@ -97,38 +99,38 @@ theorem dirOK_fset_tmp (files : Files) (x : Name) (t : Text) (hD : DirOK prov fi
   intro f u m hf hm
   by_cases h : f = x ++ tmpExt
   · subst h
-    rw [stripSql_tmp] at hm
+    rw [entryName_tmp] at hm
     cases hm
   · rw [fget_fset_other _ _ _ _ h] at hf
     exact hD f u m hf hm
 
-theorem dirOK_saved (files : Files) (n : Name) (hD : DirOK prov files) (hg : Good n = true) : DirOK prov (saved files n (prov n)) := by
+theorem dirOK_saved (files : Files) (n : Name) (hD : DirOK prov files) : DirOK prov (saved files n (prov n)) := by
   intro f u m hf hm
-  by_cases h1 : f = n ++ ext
+  by_cases h1 : f = enc n ++ ext
   · subst h1
     rw [fget_saved_final] at hf
     injection hf with hf
-    rw [stripSql_ext] at hm
+    rw [entryName_enc] at hm
     injection hm with hm
     subst hm
-    exact ⟨hg, hf.symm⟩
-  · by_cases h2 : f = n ++ ext ++ tmpExt
+    exact hf.symm
+  · by_cases h2 : f = enc n ++ ext ++ tmpExt
     · subst h2
       rw [fget_saved_tmp] at hf
       cases hf
     · rw [fget_saved_other _ _ _ _ h1 h2] at hf
       exact hD f u m hf hm
 
-/-- **C17 (cache transparency, one request).**  In a consistent state, for a good name: `get_statement` returns what the
+/-- **C17 (cache transparency, one request).**  In a consistent state, for EVERY name: `get_statement` returns what the
 provider's text parses to, keeps the state consistent, asks the provider not at all when the name is cached and exactly once
 otherwise, and touches nothing else. -/
-theorem get_spec (s : St σ) (n : Name) (hI : Inv prov parse s) (hg : Good n = true) :
+theorem get_spec (s : St σ) (n : Name) (hI : Inv prov parse s) :
     (Cache.get prov parse none s n).1 = expected prov parse n
       ∧ Inv prov parse (Cache.get prov parse none s n).2
       ∧ (Cache.get prov parse none s n).2.calls = (if cached s n then s.calls else s.calls ++ [n])
       ∧ (Cache.get prov parse none s n).2.useDisk = s.useDisk
       ∧ (Cache.get prov parse none s n).2.parent = s.parent := by
-  rw [get_none_good prov parse s n hg]
+  rw [get_none_closed prov parse s n]
   unfold cached
   obtain ⟨useDisk, mem, listed, files, parent, calls⟩ := s
   cases hm : mget mem n with
@@ -148,7 +150,7 @@ theorem get_spec (s : St σ) (n : Name) (hI : Inv prov parse s) (hg : Good n = t
       cases hl : listed.contains n with
       | true =>
         have hmem : n ∈ listed := by simpa using hl
-        obtain ⟨_, hfile⟩ := hI.disk rfl n hmem
+        have hfile := hI.disk rfl n hmem
         simp only at hfile
         simp only [↓reduceIte, hfile, Option.isSome_none, Bool.false_or, Bool.and_self]
         have hfr := finish_frame parse ({ useDisk := true, mem := mem, listed := listed, files := files, parent := parent,
@@ -165,24 +167,23 @@ theorem get_spec (s : St σ) (n : Name) (hI : Inv prov parse s) (hg : Good n = t
         intro _ m hmm
         rcases List.mem_cons.1 hmm with h | h
         · subst h
-          exact ⟨hg, fget_saved_final _ _ _⟩
-        · obtain ⟨g1, g2⟩ := hI.disk rfl m h
-          refine ⟨g1, ?_⟩
-          have hne : m ++ ext ≠ n ++ ext := by
+          exact fget_saved_final _ _ _
+        · have g2 := hI.disk rfl m h
+          have hne : enc m ++ ext ≠ enc n ++ ext := by
             intro he
-            have := append_ext_inj he
+            have := file_inj he
             subst this
             have : listed.contains m = true := by simpa using h
             rw [this] at hl
             cases hl
-          show fget (saved files n (prov n)) (m ++ ext) = some (prov m)
-          rw [fget_saved_other _ _ _ _ hne (Ne.symm (tmp_ne_final n m))]
+          show fget (saved files n (prov n)) (enc m ++ ext) = some (prov m)
+          rw [fget_saved_other _ _ _ _ hne (Ne.symm (tmp_ne_final (enc n) (enc m)))]
           exact g2
 
-/-- the directory stays restart-safe when a good name is requested -/
-theorem get_dirOK (s : St σ) (n : Name) (hD : DirOK prov s.files) (hg : Good n = true) :
+/-- the directory stays restart-safe, whatever name is requested -/
+theorem get_dirOK (s : St σ) (n : Name) (hD : DirOK prov s.files) :
     DirOK prov (Cache.get prov parse none s n).2.files := by
-  rw [get_none_good prov parse s n hg]
+  rw [get_none_closed prov parse s n]
   obtain ⟨useDisk, mem, listed, files, parent, calls⟩ := s
   cases mget mem n with
   | some st => exact hD
@@ -190,19 +191,19 @@ theorem get_dirOK (s : St σ) (n : Name) (hD : DirOK prov s.files) (hg : Good n 
     simp only
     split
     · split
-      · cases fget files (n ++ ext) with
+      · cases fget files (enc n ++ ext) with
         | none => exact hD
         | some t =>
           simp only
           rw [(finish_frame parse _ n _).2.2.1]
           exact hD
       · rw [(finish_frame parse _ n _).2.2.1]
-        exact dirOK_saved prov files n hD hg
+        exact dirOK_saved prov files n hD
     · rw [(finish_frame parse _ n _).2.2.1]
       exact hD
 
 /-- **C17 (re-instantiation).**  A new process over a restart-safe directory starts in a consistent state: every listed name is
-the name a `*.sql` file was saved under and the file holds the provider's text. -/
+the name a `*.sql` file was saved under (the decoding of its canonical stem) and the file holds the provider's text. -/
 theorem init_inv (useDisk : Bool) (files parent : Files) (calls : List Name) (hD : DirOK prov files) :
     Inv prov parse (init (σ := σ) useDisk files parent calls) := by
   refine ⟨?_, ?_⟩
@@ -213,28 +214,27 @@ theorem init_inv (useDisk : Bool) (files parent : Files) (calls : List Name) (hD
     simp only [init, hd', ↓reduceIte, List.mem_filterMap] at hn
     obtain ⟨⟨f, t⟩, hmem, hstrip⟩ := hn
     obtain ⟨t', ht'⟩ := fget_of_mem files f t hmem
-    obtain ⟨hg, hcont⟩ := hD f t' n ht' hstrip
-    refine ⟨hg, ?_⟩
-    show fget files (n ++ ext) = some (prov n)
-    rw [← stripSql_some f n hstrip, ht', hcont]
+    have hcont := hD f t' n ht' hstrip
+    show fget files (enc n ++ ext) = some (prov n)
+    rw [← entryName_some f n hstrip, ht', hcont]
 
-/-- the operations of a crash-free history over good names -/
-def GoodOp : Op → Bool
+/-- the operations of a crash-free history (any names) -/
+def CrashFree : Op → Bool
   | .init _ => true
-  | .get n => Good n
+  | .get _ => true
   | .crash _ _ => false
 
-theorem step_inv (s : St σ) (o : Op) (ho : GoodOp o = true) (hI : Inv prov parse s) (hD : DirOK prov s.files) :
+theorem step_inv (s : St σ) (o : Op) (ho : CrashFree o = true) (hI : Inv prov parse s) (hD : DirOK prov s.files) :
     Inv prov parse (step prov parse s o) ∧ DirOK prov (step prov parse s o).files := by
   cases o with
   | init b => exact ⟨init_inv prov parse b _ _ _ hD, hD⟩
-  | get n => exact ⟨(get_spec prov parse s n hI ho).2.1, get_dirOK prov parse s n hD ho⟩
-  | crash n c => simp [GoodOp] at ho
+  | get n => exact ⟨(get_spec prov parse s n hI).2.1, get_dirOK prov parse s n hD⟩
+  | crash n c => simp [CrashFree] at ho
 
-/-- **C17 (histories).**  After ANY crash-free history of re-instantiations (with or without a directory) and requests for good
+/-- **C17 (histories).**  After ANY crash-free history of re-instantiations (with or without a directory) and requests for any
 names, started in any consistent state, the state is consistent and the directory is restart-safe — in particular after `init` in
 a later process. -/
-theorem history_inv (ops : List Op) (hops : ∀ o ∈ ops, GoodOp o = true)
+theorem history_inv (ops : List Op) (hops : ∀ o ∈ ops, CrashFree o = true)
     (s : St σ) (hI : Inv prov parse s) (hD : DirOK prov s.files) :
     Inv prov parse (run prov parse s ops) ∧ DirOK prov (run prov parse s ops).files := by
   induction ops generalizing s with
@@ -253,7 +253,7 @@ def specResults : List Op → List (Res σ)
   | .get n :: r => expected prov parse n :: specResults r
   | .crash n _ :: r => expected prov parse n :: specResults r
 
-theorem results_spec_from (ops : List Op) (hops : ∀ o ∈ ops, GoodOp o = true)
+theorem results_spec_from (ops : List Op) (hops : ∀ o ∈ ops, CrashFree o = true)
     (s : St σ) (hI : Inv prov parse s) (hD : DirOK prov s.files) :
     results prov parse s ops = specResults prov parse ops := by
   induction ops generalizing s with
@@ -266,13 +266,13 @@ theorem results_spec_from (ops : List Op) (hops : ∀ o ∈ ops, GoodOp o = true
     | init b => simpa [results, specResults] using hr
     | get n =>
       simp only [results, specResults]
-      rw [(get_spec prov parse s n hI ho).1, hr]
-    | crash n c => simp [GoodOp] at ho
+      rw [(get_spec prov parse s n hI).1, hr]
+    | crash n c => simp [CrashFree] at ho
 
-/-- **C17 (cache transparency, histories).**  In every crash-free history over good names, started by a first process over an
+/-- **C17 (cache transparency, histories).**  In every crash-free history, over ALL names, started by a first process over an
 empty directory, every request answers what the provider's text parses to — whether it is served from memory, from the directory,
 or freshly fetched, in this or an earlier process.  Requesting twice, or after other requests, gives the same answer. -/
-theorem results_spec (b : Bool) (ops : List Op) (hops : ∀ o ∈ ops, GoodOp o = true) :
+theorem results_spec (b : Bool) (ops : List Op) (hops : ∀ o ∈ ops, CrashFree o = true) :
     results prov parse (fresh b) ops = specResults prov parse ops :=
   results_spec_from prov parse ops hops _ (fresh_ok prov parse b).1 (fresh_ok prov parse b).2
 
@@ -291,12 +291,12 @@ theorem finish_ok (s : St σ) (n : Name) (sql : Text) (st : σ) (hp : parse sql 
 /-- **C17 (refinement of the abstract cache).**  When the provider's text parses, one concrete request simulates one request of
 `AbsCache`: same answer, same provider call log, same set of warm names. -/
 theorem get_refines (s : St σ) (n : Name) (st : σ)
-    (hI : Inv prov parse s) (hg : Good n = true) (hp : parse (prov n) = .ok st) :
+    (hI : Inv prov parse s) (hp : parse (prov n) = .ok st) :
     (Cache.get prov parse none s n).1 = .ok st
       ∧ (Abs.get prov parse s.abs n).1 = .ok st
       ∧ (Cache.get prov parse none s n).2.abs.calls = (Abs.get prov parse s.abs n).2.calls
       ∧ ∀ m, m ∈ (Cache.get prov parse none s n).2.abs.warm ↔ m ∈ (Abs.get prov parse s.abs n).2.warm := by
-  obtain ⟨h1, _, h3, _, _⟩ := get_spec prov parse s n hI hg
+  obtain ⟨h1, _, h3, _, _⟩ := get_spec prov parse s n hI
   have hres : (Cache.get prov parse none s n).1 = .ok st := by
     rw [h1]
     simp [expected, hp]
@@ -307,7 +307,7 @@ theorem get_refines (s : St σ) (n : Name) (st : σ)
     unfold Abs.get
     cases s.abs.warm.contains n <;> simp [St.abs]
   · intro m
-    rw [get_none_good prov parse s n hg]
+    rw [get_none_closed prov parse s n]
     unfold Abs.get
     rw [← hw]
     unfold cached
@@ -325,7 +325,7 @@ theorem get_refines (s : St σ) (n : Name) (st : σ)
         cases hl : listed.contains n with
         | true =>
           have hmem : n ∈ listed := by simpa using hl
-          obtain ⟨_, hfile⟩ := hI.disk rfl n hmem
+          have hfile := hI.disk rfl n hmem
           simp only at hfile
           simp only [↓reduceIte, hfile, finish_ok parse _ n _ st hp, Option.isSome_none, Bool.false_or, Bool.and_self]
           simp only [St.abs, ↓reduceIte, List.map_append, List.map_cons, List.map_nil, List.mem_append, List.mem_cons,
@@ -354,27 +354,27 @@ theorem get_refines (s : St σ) (n : Name) (st : σ)
             · exact Or.inl (Or.inl h)
             · exact Or.inr (Or.inr h)
 
-/-- **C17 (crash safety).**  A process death at ANY point of a request for a good name leaves a restart-safe directory: the text is
+/-- **C17 (crash safety).**  A process death at ANY point of a request for ANY name leaves a restart-safe directory: the text is
 written under a temporary name that no later process looks at, and appears under its final name only complete
 (`os.replace`).  So the next process starts in a consistent state (`init_inv`) and answers every request correctly
 (`results_spec_from`).  (Before /repo 4e42ffc this held only outside the window between the truncating `open` and `close`: F-C17-1.) -/
-theorem crash_dirOK (s : St σ) (n : Name) (c : Crash) (hD : DirOK prov s.files) (hg : Good n = true) :
+theorem crash_dirOK (s : St σ) (n : Name) (c : Crash) (hD : DirOK prov s.files) :
     DirOK prov (Cache.get prov parse (some c) s n).2.files := by
   unfold Cache.get load openTmp
-  simp only [resolve_good _ _ hg, resolveTmp_good _ _ hg, putFile, replaceFile]
+  simp only [resolve_enc, resolveTmp_enc, putFile, replaceFile]
   obtain ⟨useDisk, mem, listed, files, parent, calls⟩ := s
-  have k1 : ∀ t, DirOK prov (fset files (n ++ ext ++ tmpExt) t) := fun t => dirOK_fset_tmp prov files (n ++ ext) t hD
-  have k2 : ∀ t u, DirOK prov (fset (fset files (n ++ ext ++ tmpExt) t) (n ++ ext ++ tmpExt) u) :=
-    fun t u => dirOK_fset_tmp prov _ (n ++ ext) u (k1 t)
-  have k3 : DirOK prov (fset (fdel (fset (fset files (n ++ ext ++ tmpExt) []) (n ++ ext ++ tmpExt) (prov n)) (n ++ ext ++ tmpExt)) (n ++ ext) (prov n)) :=
-    dirOK_saved prov files n hD hg
+  have k1 : ∀ t, DirOK prov (fset files (enc n ++ ext ++ tmpExt) t) := fun t => dirOK_fset_tmp prov files (enc n ++ ext) t hD
+  have k2 : ∀ t u, DirOK prov (fset (fset files (enc n ++ ext ++ tmpExt) t) (enc n ++ ext ++ tmpExt) u) :=
+    fun t u => dirOK_fset_tmp prov _ (enc n ++ ext) u (k1 t)
+  have k3 : DirOK prov (fset (fdel (fset (fset files (enc n ++ ext ++ tmpExt) []) (enc n ++ ext ++ tmpExt) (prov n)) (enc n ++ ext ++ tmpExt)) (enc n ++ ext) (prov n)) :=
+    dirOK_saved prov files n hD
   cases mget mem n with
   | some st => exact hD
   | none =>
     simp only
     split
     · split
-      · cases fget files (n ++ ext) with
+      · cases fget files (enc n ++ ext) with
         | none => exact hD
         | some t =>
           simp only
@@ -397,24 +397,230 @@ theorem crash_dirOK (s : St σ) (n : Name) (c : Crash) (hD : DirOK prov s.files)
       · rw [(finish_frame parse _ n _).2.2.1]
         exact hD
 
-/-- … and so every history, WITH process deaths at arbitrary points, keeps the directory restart-safe -/
-def GoodOpC : Op → Bool
-  | .init _ => true
-  | .get n => Good n
-  | .crash n _ => Good n
-
-theorem history_dirOK_with_crashes (ops : List Op) (hops : ∀ o ∈ ops, GoodOpC o = true) (s : St σ) (hD : DirOK prov s.files) :
+/-- … and so EVERY history — any names, re-instantiations, process deaths at arbitrary points — keeps the directory restart-safe -/
+theorem history_dirOK_with_crashes (ops : List Op) (s : St σ) (hD : DirOK prov s.files) :
     DirOK prov (run prov parse s ops).files := by
   induction ops generalizing s with
   | nil => exact hD
   | cons o r ih =>
-    apply ih (fun o' ho' => hops o' (by simp [ho']))
-    have ho := hops o (by simp)
+    apply ih
     cases o with
     | init b => exact hD
-    | get n => exact get_dirOK prov parse s n hD ho
-    | crash n c => exact crash_dirOK prov parse s n c hD ho
+    | get n => exact get_dirOK prov parse s n hD
+    | crash n c => exact crash_dirOK prov parse s n c hD
 
+/-! ## the file names: inside the directory, one per table name -/
+
+/-- **C17 (nothing outside the cache directory).**  For EVERY table name and at EVERY crash point: the cache file and the temporary
+file of a request resolve (`os.path.join` + path resolution of the operating system, `Cache.resolveP`) to the entries `<enc n>.sql` and
+`<enc n>.sql.tmp` directly IN the cache directory, because the encoded name has no path separator and no NUL; the request leaves
+everything above the directory as it was and, inside the directory, touches no entry but these two.
+(Before /repo 69f92c3 the name itself was pasted into the path: `../x` was written above the directory — F-C17-6.) -/
+theorem files_stay_inside (crash : Option Crash) (s : St σ) (n : Name) :
+    resolve s.files n = .inDir (enc n ++ ext) ∧ resolveTmp s.files n = .inDir (enc n ++ ext ++ tmpExt)
+      ∧ (∀ x ∈ enc n, x ≠ '/' ∧ x ≠ '\x00')
+      ∧ (Cache.get prov parse crash s n).2.parent = s.parent
+      ∧ ∀ f, f ≠ enc n ++ ext → f ≠ enc n ++ ext ++ tmpExt → fget (Cache.get prov parse crash s n).2.files f = fget s.files f := by
+  refine ⟨resolve_enc _ _, resolveTmp_enc _ _, enc_chars n, ?_⟩
+  unfold Cache.get load openTmp
+  simp only [resolve_enc, resolveTmp_enc, putFile, replaceFile]
+  obtain ⟨useDisk, mem, listed, files, parent, calls⟩ := s
+  have k1 : ∀ t f, f ≠ enc n ++ ext → f ≠ enc n ++ ext ++ tmpExt → fget (fset files (enc n ++ ext ++ tmpExt) t) f = fget files f :=
+    fun t f _ h2 => fget_fset_other _ _ _ _ h2
+  have k2 : ∀ t u f, f ≠ enc n ++ ext → f ≠ enc n ++ ext ++ tmpExt →
+      fget (fset (fset files (enc n ++ ext ++ tmpExt) t) (enc n ++ ext ++ tmpExt) u) f = fget files f :=
+    fun t u f h1 h2 => by rw [fget_fset_other _ _ _ _ h2, k1 t f h1 h2]
+  have k3 : ∀ f, f ≠ enc n ++ ext → f ≠ enc n ++ ext ++ tmpExt →
+      fget (fset (fdel (fset (fset files (enc n ++ ext ++ tmpExt) []) (enc n ++ ext ++ tmpExt) (prov n)) (enc n ++ ext ++ tmpExt)) (enc n ++ ext) (prov n)) f
+        = fget files f := fun f h1 h2 => fget_saved_other files n (prov n) f h1 h2
+  cases mget mem n with
+  | some st => exact ⟨rfl, fun _ _ _ => rfl⟩
+  | none =>
+    simp only
+    split
+    · split
+      · cases fget files (enc n ++ ext) with
+        | none => exact ⟨rfl, fun _ _ _ => rfl⟩
+        | some t =>
+          simp only
+          rw [(finish_frame parse _ n _).2.2.1, (finish_frame parse _ n _).2.2.2.1]
+          exact ⟨rfl, fun _ _ _ => rfl⟩
+      · split
+        · exact ⟨rfl, fun _ _ _ => rfl⟩
+        · split
+          · exact ⟨rfl, k1 _⟩
+          · split
+            · exact ⟨rfl, k2 _ _⟩
+            · split
+              · exact ⟨rfl, k2 _ _⟩
+              · split
+                · exact ⟨rfl, k3⟩
+                · rw [(finish_frame parse _ n _).2.2.1, (finish_frame parse _ n _).2.2.2.1]
+                  exact ⟨rfl, k3⟩
+    · split
+      · exact ⟨rfl, fun _ _ _ => rfl⟩
+      · rw [(finish_frame parse _ n _).2.2.1, (finish_frame parse _ n _).2.2.2.1]
+        exact ⟨rfl, fun _ _ _ => rfl⟩
+
+/-- … over whole histories: no sequence of instantiations, requests and process deaths, for whatever names, changes anything above
+the cache directory -/
+theorem history_stays_inside (ops : List Op) (s : St σ) : (run prov parse s ops).parent = s.parent := by
+  induction ops generalizing s with
+  | nil => rfl
+  | cons o r ih =>
+    show (run prov parse (step prov parse s o) r).parent = s.parent
+    rw [ih]
+    cases o with
+    | init b => rfl
+    | get n => exact (files_stay_inside prov parse none s n).2.2.2.1
+    | crash n c => exact (files_stay_inside prov parse (some c) s n).2.2.2.1
+
+/-- **C17 (one file per table name).**  The encoding is injective, so two different table names never share a cache file or a
+temporary file, no temporary file is any table's cache file, the entry `<enc n>.sql` is read back by `__init__` as table `n` (the
+decoding of a canonical stem is the name it was saved under), and an entry is read as table `n` ONLY if it is that file.
+(Before /repo 69f92c3: `./a` and `a` shared `a.sql`, and `./a` was listed as `a` — F-C17-4/5.) -/
+theorem names_do_not_collide (n m : Name) :
+    (enc n = enc m → n = m)
+      ∧ (enc n ++ ext = enc m ++ ext → n = m)
+      ∧ (enc n ++ ext ++ tmpExt = enc m ++ ext ++ tmpExt → n = m)
+      ∧ enc n ++ ext ++ tmpExt ≠ enc m ++ ext
+      ∧ dec (enc n) = some n
+      ∧ entryName (enc n ++ ext) = some n
+      ∧ (∀ f, entryName f = some n → f = enc n ++ ext) :=
+  ⟨fun h => enc_injective h, file_inj, fun h => file_inj (List.append_cancel_right h), tmp_ne_final _ _, dec_enc n, entryName_enc n,
+   fun f h => entryName_some f n h⟩
+
+theorem mem_of_fget (fs : Files) (f : Name) (t : Text) (h : fget fs f = some t) : (f, t) ∈ fs := by
+  induction fs with
+  | nil => simp [fget] at h
+  | cons p r ih =>
+    obtain ⟨g, u⟩ := p
+    by_cases hg : g = f
+    · subst hg
+      simp only [fget, ↓reduceIte] at h
+      injection h with h
+      subst h
+      simp
+    · simp only [fget, hg, ↓reduceIte] at h
+      exact List.mem_cons_of_mem _ (ih h)
+
+/-- a table whose file is in the directory is listed by the next process (and so is served without asking the provider), whatever its
+name: the other half of `init_inv` -/
+theorem init_lists_saved (files parent : Files) (calls : List Name) (n : Name) (t : Text) (h : fget files (enc n ++ ext) = some t) :
+    n ∈ (init (σ := σ) true files parent calls).listed := by
+  simp only [init, ↓reduceIte, List.mem_filterMap]
+  exact ⟨(enc n ++ ext, t), mem_of_fget _ _ _ h, entryName_enc n⟩
+
+/-- the operations of a crash-free history in which every process uses the directory -/
+def DiskOp : Op → Bool
+  | .init b => b
+  | .get _ => true
+  | .crash _ _ => false
+
+/-- what "asked at most once" rests on: every name the provider was asked for is listed, and every listed name has its file -/
+structure Once (s : St σ) : Prop where
+  disk : s.useDisk = true
+  nodup : s.calls.Nodup
+  asked : ∀ n, n ∈ s.calls → n ∈ s.listed
+  file : ∀ n, n ∈ s.listed → ∃ t, fget s.files (enc n ++ ext) = some t
+
+theorem once_step (s : St σ) (o : Op) (ho : DiskOp o = true) (hO : Once s) : Once (step prov parse s o) := by
+  cases o with
+  | crash n c => simp [DiskOp] at ho
+  | init b =>
+    have hb : b = true := ho
+    subst hb
+    refine ⟨rfl, hO.nodup, ?_, ?_⟩
+    · intro n hn
+      obtain ⟨t, ht⟩ := hO.file n (hO.asked n hn)
+      exact init_lists_saved s.files s.parent s.calls n t ht
+    · intro n hn
+      simp only [step, init, ↓reduceIte, List.mem_filterMap] at hn
+      obtain ⟨⟨f, t⟩, hmem, he⟩ := hn
+      obtain ⟨t', ht'⟩ := fget_of_mem s.files f t hmem
+      exact ⟨t', by rw [← entryName_some f n he]; exact ht'⟩
+  | get n =>
+    show Once (Cache.get prov parse none s n).2
+    rw [get_none_closed prov parse s n]
+    obtain ⟨useDisk, mem, listed, files, parent, calls⟩ := s
+    have hd : useDisk = true := hO.disk
+    subst hd
+    cases mget mem n with
+    | some st => exact hO
+    | none =>
+      simp only [↓reduceIte]
+      cases hl : listed.contains n with
+      | true =>
+        simp only [↓reduceIte]
+        cases fget files (enc n ++ ext) with
+        | none => exact hO
+        | some t =>
+          simp only
+          obtain ⟨a, b, c, _, e⟩ := finish_frame parse
+            ({ useDisk := true, mem := mem, listed := listed, files := files, parent := parent, calls := calls } : St σ) n t
+          exact ⟨b, by rw [a]; exact hO.nodup, by rw [a, e]; exact hO.asked, by rw [e, c]; exact hO.file⟩
+      | false =>
+        simp only [Bool.false_eq_true, ↓reduceIte]
+        have hnl : n ∉ listed := by
+          intro hm
+          have : listed.contains n = true := by simpa using hm
+          rw [this] at hl
+          cases hl
+        obtain ⟨a, b, c, _, e⟩ := finish_frame parse
+          ({ useDisk := true, mem := mem, listed := n :: listed, files := saved files n (prov n), parent := parent,
+             calls := calls ++ [n] } : St σ) n (prov n)
+        refine ⟨b, ?_, ?_, ?_⟩
+        · rw [a]
+          have hO2 := hO.nodup
+          have hO3 := hO.asked
+          simp only at hO2 hO3 ⊢
+          rw [List.nodup_append]
+          refine ⟨hO2, by simp, ?_⟩
+          intro x hx y hy
+          simp only [List.mem_cons, List.not_mem_nil, or_false] at hy
+          subst hy
+          intro hxy
+          subst hxy
+          exact hnl (hO3 x hx)
+        · rw [a, e]
+          intro m hm
+          rcases List.mem_append.1 hm with h | h
+          · exact List.mem_cons_of_mem _ (hO.asked m h)
+          · simp only [List.mem_cons, List.not_mem_nil, or_false] at h
+            subst h
+            exact List.mem_cons_self
+        · rw [e, c]
+          intro m hm
+          rcases List.mem_cons.1 hm with h | h
+          · subst h
+            exact ⟨prov m, fget_saved_final _ _ _⟩
+          · obtain ⟨t, ht⟩ := hO.file m h
+            have hne : enc m ++ ext ≠ enc n ++ ext := by
+              intro he
+              have := file_inj he
+              subst this
+              exact hnl h
+            exact ⟨t, by
+              show fget (saved files n (prov n)) (enc m ++ ext) = some t
+              rw [fget_saved_other _ _ _ _ hne (Ne.symm (tmp_ne_final (enc n) (enc m)))]
+              exact ht⟩
+
+/-- **C17 (minimal across processes).**  In every crash-free history in which every process uses the directory — any number of
+re-instantiations, requests for ANY names in any order — the provider is asked AT MOST ONCE per table name over the whole history:
+what one process saved, every later process finds.  (Before /repo 69f92c3 false for names with `/`: F-C17-5.) -/
+theorem asked_once_across_restarts (ops : List Op) (hops : ∀ o ∈ ops, DiskOp o = true) :
+    (run prov parse (fresh (σ := σ) true) ops).calls.Nodup := by
+  have key : ∀ (ops : List Op) (s : St σ), (∀ o ∈ ops, DiskOp o = true) → Once s → Once (run prov parse s ops) := by
+    intro ops
+    induction ops with
+    | nil => intro s _ h; exact h
+    | cons o r ih =>
+      intro s ho h
+      exact ih _ (fun o' ho' => ho o' (by simp [ho'])) (once_step prov parse s o (ho o (by simp)) h)
+  refine (key ops _ hops ⟨rfl, ?_, ?_, ?_⟩).nodup
+  · simp [fresh, init]
+  · intro n hn; simp [fresh, init] at hn
+  · intro n hn; simp [fresh, init] at hn
 end
 
 /-! ## non-vacuity, regression examples and witnesses (kernel-evaluated on a small instance of the model)
@@ -425,13 +631,14 @@ def tprov (n : Name) : Text := "DDL:".toList ++ n
 def tparse (t : Text) : Except Err Text := if t.isEmpty then .error .parse else .ok t
 
 /-- non-vacuity of `results_spec`: a history with a memory hit, a disk hit in a second process, a process without directory and
-names with schema, dots, back-quotes and `.sql` inside satisfies the hypotheses … -/
+names with schema, dots, back-quotes, `.sql` inside, `/`, `../`, NUL, `%`, blanks and non-ASCII characters is crash-free … -/
 example : (([.get "s.t".toList, .get "s.t".toList, .init true, .get "s.t".toList, .get "`a b`".toList, .init false,
-    .get "s.t".toList, .init true, .get "a.sql.b".toList] : List Op).all GoodOp) = true := by decide +kernel
+    .get "s.t".toList, .init true, .get "a.sql.b".toList, .get "../x".toList, .get ['a', '\x00'], .get "é表%".toList] : List Op).all CrashFree)
+      = true := by decide +kernel
 /-- … and the provider is asked exactly once per name per cold state in it -/
 example : (run tprov tparse (fresh true) [.get "s.t".toList, .get "s.t".toList, .init true, .get "s.t".toList, .get "`a b`".toList,
-    .init false, .get "s.t".toList, .init true, .get "a.sql.b".toList]).calls
-    = ["s.t".toList, "`a b`".toList, "s.t".toList, "a.sql.b".toList] := by decide +kernel
+    .init false, .get "s.t".toList, .init true, .get "a.sql.b".toList, .get "`a b`".toList, .get "../x".toList, .init true, .get "../x".toList]).calls
+    = ["s.t".toList, "`a b`".toList, "s.t".toList, "a.sql.b".toList, "../x".toList] := by decide +kernel
 
 /-- regression for F-C17-1 (fixed in /repo 4e42ffc): a process death right after the temporary file was created (step 2), in the
 middle of `write` (step 3) or after `close` (step 4) leaves nothing a later process trusts — the table is fetched again and
@@ -465,28 +672,60 @@ theorem regress_insert_target_key :
     (insertKey (some "s") "t" == sourceKey (some "s") "t") = true ∧ (insertKey none "t" == sourceKey none "t") = true
       ∧ (insertKeyOld (some "s") "t" == sourceKey (some "s") "t") = false := by decide +kernel
 
-/-- F-C17-4: a name with `/` — the provider is asked, `open` raises `FileNotFoundError`; every request asks and fails again -/
-theorem witness_slash :
-    results tprov tparse (fresh true) [.get "s/t".toList, .get "s/t".toList] = [.fail .fileNotFound, .fail .fileNotFound]
-      ∧ (run tprov tparse (fresh true) [.get "s/t".toList, .get "s/t".toList]).calls = ["s/t".toList, "s/t".toList] := by decide +kernel
+/-- regression for F-C17-4 (fixed in /repo 69f92c3): a name with `/` is saved (as `s%2Ft.sql`) and answered; the second request does not
+ask again (before: `FileNotFoundError` from `open` after the provider was asked, on every request) -/
+theorem regress_slash :
+    results tprov tparse (fresh true) [.get "s/t".toList, .get "s/t".toList, .init true, .get "s/t".toList]
+        = [.ok (tprov "s/t".toList), .ok (tprov "s/t".toList), .ok (tprov "s/t".toList)]
+      ∧ (run tprov tparse (fresh true) [.get "s/t".toList, .get "s/t".toList, .init true, .get "s/t".toList]).calls = ["s/t".toList]
+      ∧ (run tprov tparse (fresh true) [.get "s/t".toList]).files = [("s%2Ft.sql".toList, tprov "s/t".toList)] := by decide +kernel
 
-/-- F-C17-4 (aliasing): `./a` is saved as `a.sql`; the next process serves it as table `a` without asking the provider -/
-theorem witness_dot_slash_alias :
+/-- regression for F-C17-4 (aliasing): `./a` is saved as `.%2Fa.sql`, not as `a.sql`; the next process asks the provider for table `a`
+and answers with ITS text (before: table `a` was served the text of `./a` without asking) -/
+theorem regress_dot_slash_alias :
     results tprov tparse (fresh true) [.get "./a".toList, .init true, .get "a".toList]
-        = [.ok (tprov "./a".toList), .ok (tprov "./a".toList)]
-      ∧ (run tprov tparse (fresh true) [.get "./a".toList, .init true, .get "a".toList]).calls = ["./a".toList] := by decide +kernel
+        = [.ok (tprov "./a".toList), .ok (tprov "a".toList)]
+      ∧ (run tprov tparse (fresh true) [.get "./a".toList, .init true, .get "a".toList]).calls = ["./a".toList, "a".toList] := by decide +kernel
 
-/-- F-C17-5: … and the table `./a` itself is not found on disk by the next process (it is listed as `a`): asked again -/
-theorem witness_slash_fetched_again :
-    (run tprov tparse (fresh true) [.get "./a".toList, .init true, .get "./a".toList]).calls = ["./a".toList, "./a".toList] := by decide +kernel
+/-- regression for F-C17-5: … and the table `./a` itself is found on disk by the next process (listed under its own name): asked once -/
+theorem regress_slash_found_again :
+    (run tprov tparse (fresh true) [.get "./a".toList, .init true, .get "./a".toList]).calls = ["./a".toList]
+      ∧ (init (σ := Text) true (run tprov tparse (fresh true) [.get "./a".toList]).files [] []).listed = ["./a".toList] := by decide +kernel
 
-/-- F-C17-6 (escape): `../x` is written above the cache directory -/
-theorem witness_escape :
-    (run tprov tparse (fresh true) [.get "../x".toList]).parent = [("x.sql".toList, tprov "../x".toList)] := by decide +kernel
+/-- regression for F-C17-6 (escape): `../x` and the absolute name `/x` are written INTO the cache directory (`..%2Fx.sql`, `%2Fx.sql`),
+nothing above it -/
+theorem regress_escape :
+    (run tprov tparse (fresh true) [.get "../x".toList, .get "/x".toList]).parent = []
+      ∧ (run tprov tparse (fresh true) [.get "../x".toList, .get "/x".toList]).files
+          = [("..%2Fx.sql".toList, tprov "../x".toList), ("%2Fx.sql".toList, tprov "/x".toList)] := by decide +kernel
 
-/-- F-C17-7 (NUL): `ValueError` from `open`, after the provider was asked -/
-theorem witness_nul :
-    results tprov tparse (fresh true) [.get ['a', '\x00']] = [.fail .valueError]
-      ∧ (run tprov tparse (fresh true) [.get ['a', '\x00']]).calls = [['a', '\x00']] := by decide +kernel
+/-- regression for F-C17-7 (NUL): answered, saved as `a%00.sql`, served from the directory by the next process (before: `ValueError`
+from `open` after the provider was asked, on every request) -/
+theorem regress_nul :
+    results tprov tparse (fresh true) [.get ['a', '\x00'], .init true, .get ['a', '\x00']] = [.ok (tprov ['a', '\x00']), .ok (tprov ['a', '\x00'])]
+      ∧ (run tprov tparse (fresh true) [.get ['a', '\x00'], .init true, .get ['a', '\x00']]).calls = [['a', '\x00']] := by decide +kernel
+
+/-- `a%2Fb` and `a/b` are different tables with different files (`a%252Fb.sql`, `a%2Fb.sql`); the empty name, `.` and `..` are the plain
+entries `.sql`, `..sql`, `...sql` of the directory -/
+theorem regress_percent_and_dots :
+    (run tprov tparse (fresh true) [.get "a%2Fb".toList, .get "a/b".toList, .get [], .get ".".toList, .get "..".toList, .init true,
+        .get "a/b".toList, .get "a%2Fb".toList, .get [], .get ".".toList, .get "..".toList]).calls
+        = ["a%2Fb".toList, "a/b".toList, [], ".".toList, "..".toList]
+      ∧ (run tprov tparse (fresh true) [.get "a%2Fb".toList, .get "a/b".toList, .get [], .get ".".toList, .get "..".toList]).files.map (·.1)
+        = ["a%252Fb.sql".toList, "a%2Fb.sql".toList, ".sql".toList, "..sql".toList, "...sql".toList] := by decide +kernel
+
+/-- a file of an earlier version whose raw name is not a canonical encoding (`a b.sql`, `é.sql`), a lower-case escape (`a%2fb.sql`), an
+incomplete or non-UTF-8 escape and the temporary file of an interrupted run are ignored by `__init__`; the table `a b` is fetched again
+and saved as `a%20b.sql`; the legacy file stays untouched -/
+theorem regress_legacy_files :
+    (init (σ := Text) true [("a b.sql".toList, "old".toList), ("é.sql".toList, []), ("a%2fb.sql".toList, []), ("%2.sql".toList, []),
+        ("%FF.sql".toList, []), ("%C0%AF.sql".toList, []), ("q.sql.tmp".toList, []), ("x.sql".toList, tprov "x".toList)] [] []).listed = ["x".toList]
+      ∧ (run tprov tparse (init true [("a b.sql".toList, "old".toList)] [] []) [.get "a b".toList]).calls = ["a b".toList]
+      ∧ (run tprov tparse (init true [("a b.sql".toList, "old".toList)] [] []) [.get "a b".toList]).files
+          = [("a b.sql".toList, "old".toList), ("a%20b.sql".toList, tprov "a b".toList)] := by decide +kernel
+
+/-- non-vacuity of `asked_once_across_restarts` -/
+example : (([.get "./a".toList, .init true, .get "a".toList, .get "./a".toList, .init true, .get "a".toList] : List Op).all DiskOp) = true := by
+  decide +kernel
 
 end C17
